@@ -183,6 +183,7 @@ type Stats struct {
 	FactPruned    int
 	FreshQueries  int
 	OpaqueInts    int
+	SampledClasses int
 	AssertConst   int
 	AssertUnsat   int
 	Obligations   int
@@ -219,6 +220,7 @@ func (s *Stats) merge(o *Stats) {
 	s.FactPruned += o.FactPruned
 	s.FreshQueries += o.FreshQueries
 	s.OpaqueInts += o.OpaqueInts
+	s.SampledClasses += o.SampledClasses
 	s.AssertConst += o.AssertConst
 	s.AssertUnsat += o.AssertUnsat
 	s.Obligations += o.Obligations
@@ -283,6 +285,7 @@ type Worker struct {
 	stats       *Stats
 	fnSeen      map[*ssa.Function]bool
 	lastModel   Model
+	lastRestart int
 	h           *HarnessRun
 }
 
@@ -481,6 +484,11 @@ func (w *Worker) loop(wg *sync.WaitGroup) {
 		// keep the term table bounded
 		if len(w.ctx.tab) > 3_000_000 {
 			w.resetCtx()
+		}
+		// the incremental solver slows down as assumption literals accumulate: start a fresh process now and then
+		if w.solver.Queries-w.lastRestart > 1500 {
+			w.lastRestart = w.solver.Queries
+			w.solver.Restart()
 		}
 
 		rs.mu.Lock()
